@@ -5,3 +5,4 @@ from . import payload     # noqa: F401
 from . import coord_payload  # noqa: F401
 from . import fiber  # noqa: F401
 from . import iterators  # noqa: F401
+from . import rank  # noqa: F401
